@@ -14,7 +14,8 @@ A. every scenario is built AND signed by the real `TransactionBuilder`; the fake
    * body.fee < exact ledger minimum fee of the signed bytes      -> ctx.violation (judged with Fractions, no model)
 B. synthetic item pairs (dominated and non-dominated edits of random trees): the driver's verdict against an
    independent Python rendering of the relation, and `dom => size` evaluated on the bytes.
-C. `_build_fake_vkey_witnesses()` for witness counts on both sides of 24 / 256 / 512 against the model `fakeWitnessSet`.
+C. `_build_fake_vkey_witnesses()` for witness counts on both sides of 24 / 256 / 512 (257, 300, 513 included) against the
+   model `fakeWitnessSet` and against the count itself (n pairwise distinct placeholders of 32 + 64 bytes).
 """
 from __future__ import annotations
 
@@ -304,13 +305,6 @@ def check_built(ctx, case):
         ctx.case(case, nontrivial=False)
         return
     # -- verdicts
-    if not sufficient and nreal > 256 and nfake < nreal and not override and need - B.fee <= math.ceil(a * 101 * (nreal - nfake)) + 2:
-        # recorded defect (theorem fake_witness_count_counterexample): beyond 256 required keys the placeholder masks repeat,
-        # the OrderedSet drops the repeated placeholders and the estimate misses 101 bytes per dropped witness.  Needs a
-        # transaction of > 26 KiB (max_tx_size is 16 KiB on every deployed network): reported, not failed.
-        ctx.count(f"sizedom:recorded-defect:placeholders-repeat-beyond-256:reproduced(real={nreal},fake={nfake},short={need - B.fee})")
-        ctx.case(case)
-        return
     if not sufficient:
         hyp = (f"domB(last fake, signed)={dom}" + (f" [{why}]" if why else "") + f"; exit hypothesis {'holds' if exit_ok else 'FAILS'}"
                f"; sizes fake {len(last_b)} / signed {len(real_b)}")
@@ -506,7 +500,8 @@ def corpus():
     fake = [body(1000000), R.Map([(0, R.Tag(258, [wit(0, 0), wit(0, 1)])), (1, R.Tag(258, [[0, b"\x07" * 28]]))]), True, None]
     real = [body(170000), R.Map([(0, R.Tag(258, [wit(0x5c, 0x99)]))]), True, None]
     built = [{"ext": EXT, "kind": "built", "family": "corpus", "knobs": [], "sc": c["sc"]} for c in C.corpus() if c.get("kind") == "signed"]
-    # the witness of Pyc.C07.SizeDom.fake_witness_count_counterexample on the implementation: 257 required keys, all signing
+    # more than 256 required keys, all signing, under max_tx_size 65536 (the configuration in which the former AND masks
+    # under-paid by 101 bytes per repeated placeholder): judged like every other scenario
     keys = [f"k{100 + i}" for i in range(256)]
     built.append({"ext": EXT, "kind": "built", "family": "corpus", "knobs": ["257-required-signers"], "sc": {
         "params": {"max_tx_size": 65536}, "utxos": [{"id": "u0", "txid": "aa" * 32, "ix": 0, "addr": "k0", "coin": 50_000_000}],
@@ -521,9 +516,9 @@ def corpus():
 # ---- C. the placeholder witnesses ------------------------------------------------------------------------------------------------
 def check_wits(ctx, case):
     """`_build_fake_vkey_witnesses()` for a witness count n against the model (`fakeWitnessSet n`) and against what the
-    estimate needs of it: n elements `[32-byte key, 64-byte signature]`.  For n > 256 the implementation (and the model:
-    theorem fake_witness_count_counterexample) yields fewer — recorded defect of the placeholder masks, counted, not a
-    failure of this check (no transaction of 257 witnesses fits the 16 KiB of any deployed parameter set)."""
+    estimate needs of it (theorem fake_witness_count): n pairwise distinct elements `[32-byte key, 64-byte signature]`,
+    for every n (the masks are XORed with the index since repair 504b48a; under the former AND masks placeholder 256
+    equalled placeholder 0 and was dropped by the OrderedSet)."""
     from pycardano.transaction import TransactionWitnessSet
     n = int(case["n"])
     b = _TB(S.StubContext({}))
@@ -540,11 +535,10 @@ def check_wits(ctx, case):
         ctx.violation("a placeholder witness is not a distinct [32-byte key, 64-byte signature] pair: the estimate is taken on "
                       "witnesses shorter than real ones", case, "n x [bytes(32), bytes(64)], pairwise distinct",
                       {"count": len(items), "first": [x.hex() for x in items[0]] if items else None})
-    if n <= 256 and len(items) != n:
-        ctx.violation(f"{len(items)} placeholder witnesses for a witness count of {n}", case, n, len(items))
-    if n > 256:
-        ctx.count("sizedom:wits:count>256:placeholders-" + ("fewer-than-counted (recorded defect)" if len(items) < n else "as-counted"))
-    ctx.count("sizedom:wits:n" + ("<=256" if n <= 256 else ">256"))
+    if len(items) != n:
+        ctx.violation(f"{len(items)} placeholder witnesses for a witness count of {n}: the estimate misses "
+                      f"{101 * (n - len(items))} bytes of the witnesses the signed transaction will carry", case, n, len(items))
+    ctx.count("sizedom:wits:n" + ("<=24" if n <= 24 else "<=256" if n <= 256 else ">256"))
     if ctx.have_driver():
         m = ctx.driver().ok({"op": "dom.fakewits", "n": str(n)})
         ctx.traces += 1
@@ -579,7 +573,7 @@ def run_ext(ctx):
     for i in range(ctx.budget(60, 1200)):
         dispatch(ctx, gen_built(random.Random(f"C07/{ctx.seed}/sizedom/built/{i}"), i))
     wr = random.Random(f"C07/{ctx.seed}/sizedom/wits")
-    for n in [1, 2, 3, 5, 23, 24, 25, 100, 255, 256, 257, 258, 511, 512, 513] + [wr.randint(1, 700) for _ in range(ctx.budget(3, 40))]:
+    for n in [1, 2, 3, 5, 23, 24, 25, 100, 255, 256, 257, 258, 300, 511, 512, 513] + [wr.randint(1, 700) for _ in range(ctx.budget(3, 40))]:
         dispatch(ctx, {"ext": EXT, "kind": "wits", "n": n})
 
 
